@@ -11,32 +11,36 @@ class Tab(Problem):
     """Finite MDP given by tables ns[s,a,e] (successor), r[s,a,e], p[s,a,e].  States are 1- or 2-component vectors
     (index = first component), actions 2-component vectors, so that vector plumbing is exercised."""
 
-    def __init__(self, ns, r, p, v0=None, pol0=None, sdim=1, prob_as_array=False):
+    def __init__(self, ns, r, p, v0=None, pol0=None, sdim=1, prob_as_array=False, half_units=False):
         self.ns, self.r, self.p = jnp.array(ns), jnp.array(r, dtype=jnp.float64), jnp.array(p, dtype=jnp.float64)
         self.N, self.A, self.E = np.asarray(ns).shape
         self.v0 = None if v0 is None else jnp.array(v0, dtype=jnp.float64)
         self.pol0 = None if pol0 is None else jnp.array(pol0)
         self.sdim = sdim; self.prob_as_array = prob_as_array
+        self.half_units = half_units          # states are levels in half units (float state vectors 0.0, 0.5, 1.0, ...): the library allows float states
         super().__init__()
 
     @property
     def name(self): return "tab"
+    def _k(self, s): return jnp.round(2 * s[0]).astype(jnp.int32) if self.half_units else s[0]
     def _construct_state_space(self):
         i = jnp.arange(self.N)
+        if self.half_units: return (0.5 * i).reshape(-1, 1)
         return jnp.stack([i, 7 - i % 3], axis=1) if self.sdim == 2 else i.reshape(-1, 1)
     def _construct_action_space(self): return jnp.stack([jnp.arange(self.A), jnp.arange(self.A) % 2], axis=1)
     def _construct_random_event_space(self): return jnp.arange(self.E).reshape(-1, 1)
-    def state_to_index(self, s): return s[0]
+    def state_to_index(self, s): return self._k(s)
     def random_event_probability(self, s, a, e):
-        v = self.p[s[0], a[0], e[0]]
+        v = self.p[self._k(s), a[0], e[0]]
         return v.reshape(1) if self.prob_as_array else v
     def transition(self, s, a, e):
-        n = self.ns[s[0], a[0], e[0]]
-        return (jnp.array([n, 7 - n % 3]) if self.sdim == 2 else n.reshape(1)), self.r[s[0], a[0], e[0]]
-    def initial_value(self, s): return 0.0 if self.v0 is None else self.v0[s[0]]
+        k = self._k(s); n = self.ns[k, a[0], e[0]]
+        if self.half_units: return (0.5 * n).reshape(1), self.r[k, a[0], e[0]]
+        return (jnp.array([n, 7 - n % 3]) if self.sdim == 2 else n.reshape(1)), self.r[k, a[0], e[0]]
+    def initial_value(self, s): return 0.0 if self.v0 is None else self.v0[self._k(s)]
     def initial_policy(self, s):
         if self.pol0 is None: raise NotImplementedError
-        return self.pol0[s[0]]
+        return self.pol0[self._k(s)]
 
 
 def rand_mdp(rng, N, A, E, unichain=False):
